@@ -15,7 +15,7 @@ import AsyncFix.Lemmas.TesterLogon
 namespace AsyncFix.Props.C20
 open AsyncFix.Tester AsyncFix.Session AsyncFix.Generated AsyncFix.Generated.ConnEnum
 
-/-- a mid-session step of a clean script: an application message or a Heartbeat either way (ASCII,
+/-- a mid-session step of a clean script: an application message or a Heartbeat either way (latin-1 text,
 no PossDupFlag, and – for `reply` – without a MsgSeqNum of its own), or a TestRequest either way -/
 def MidOp : Op → Prop
   | .iSend m => PlainMsg m ∧ (isAppType m.mtype ∨ m.mtype = mHeartbeat)
@@ -46,7 +46,7 @@ macro "peer_tac" h:term : tactic =>
 acceptors that are `AccEq`, with the same effect traces; the queue is empty again, the link is quiet,
 and the pairs are synchronised again. -/
 theorem mid_step (srI srA : Msg → Bool) (k : Nat) {env : Env} {ci caT caL : Conn} {op : Op}
-    (hT : Sync ci caT) (hL : Sync ci caL) (hE : AccEq caT caL) (henv : asciiStr env.stamp = true) (hop : MidOp op) :
+    (hT : Sync ci caT) (hL : Sync ci caL) (hE : AccEq caT caL) (henv : isLatin1 env.stamp = true) (hop : MidOp op) :
     ∃ ci' caT' caL' eI eA,
       tStep srI srA env (k + 1) ⟨ci, caT, []⟩ op = { pair := ⟨ci', caT', []⟩, effI := eI, effA := eA, out := .done } ∧
       lStep srI srA env ci caL op = ⟨ci', caL', eI, eA, true⟩ ∧
@@ -74,7 +74,7 @@ theorem mid_step (srI srA : Msg → Bool) (k : Nat) {env : Env} {ci caT caL : Co
   | aSend m =>
     obtain ⟨hm, h34, hty⟩ := hop
     have hfr := hE.frame env m
-    have hasc := sentFrame_ascii hT.a.asciiS hT.a.asciiT henv hm.ascii
+    have hasc := sentFrame_latin1 hT.a.latinS hT.a.latinT henv hm.latin1
     obtain ⟨eI, hr, hw, hn⟩ := recv_oneway_est (sr := srI) (env := env) hT.i (addressed_peer hT.peer.symm env m) hty
     have hsL := appSend_est hL.a hm henv (not_testreq_of hty)
     rw [← hfr] at hsL
@@ -87,8 +87,8 @@ theorem mid_step (srI srA : Msg → Bool) (k : Nat) {env : Env} {ci caT caL : Co
     · peer_tac hL.peer
   | iTestReq =>
     have hs := appTestReq_est hT.i henv
-    have hidA : asciiStr (((sentFrame ci env (testReqOut env)).get? tTestReqID).getD "0") = true := by
-      rw [testreq_frame_id]; exact asciiStr_pyStr _
+    have hidA : isLatin1 (((sentFrame ci env (testReqOut env)).get? tTestReqID).getD "0") = true := by
+      rw [testreq_frame_id]; exact latin1_pyStr _
     have hrT := recv_testreq_est (sr := srA) hT.a (addressed_peer hT.peer env (testReqOut env)) rfl henv hidA
     have hrL := recv_testreq_est (sr := srA) hL.a (addressed_peer hL.peer env (testReqOut env)) rfl henv hidA
     rw [← hE.frame env] at hrL
@@ -109,9 +109,9 @@ theorem mid_step (srI srA : Msg → Bool) (k : Nat) {env : Env} {ci caT caL : Co
     · peer_tac hT.peer
     · peer_tac hL.peer
   | aTestReq =>
-    have hasc := sentFrame_ascii hT.a.asciiS hT.a.asciiT henv (testReqOut_ascii env)
-    have hidI : asciiStr (((sentFrame caT env (testReqOut env)).get? tTestReqID).getD "0") = true := by
-      rw [testreq_frame_id]; exact asciiStr_pyStr _
+    have hasc := sentFrame_latin1 hT.a.latinS hT.a.latinT henv (testReqOut_latin1 env)
+    have hidI : isLatin1 (((sentFrame caT env (testReqOut env)).get? tTestReqID).getD "0") = true := by
+      rw [testreq_frame_id]; exact latin1_pyStr _
     have hr := recv_testreq_est (sr := srI) hT.i (addressed_peer hT.peer.symm env (testReqOut env)) rfl henv hidI
     -- tester: the acceptor (no TestReqID registered) takes the Heartbeat as an ordinary one
     have haT : Addressed (afterReply caT) (sentFrame ci env (hbReply (sentFrame caT env (testReqOut env))))
@@ -172,15 +172,15 @@ theorem est_aAfterLogon {ci ca : Conn} {env : Env} {f : Msg} (hs : Start ci) (h 
   · show 0 < ca.sess.nextIn + 1
     have := hs.posOut
     rw [h.peer.oi]; omega
-  · show asciiStr ca.sess.sender = true
-    rw [h.peer.ts]; exact hs.asciiT
-  · show asciiStr ca.sess.target = true
-    rw [h.peer.st]; exact hs.asciiS
+  · show isLatin1 ca.sess.sender = true
+    rw [h.peer.ts]; exact hs.latinT
+  · show isLatin1 ca.sess.target = true
+    rw [h.peer.st]; exact hs.latinS
 
 theorem est_iAfterLogon {ci : Conn} {env : Env} {m g : Msg} (hs : Start ci) : Est (iAfterLogon ci env m g) := by
   have hf := jfresh_afterIn env g (jfresh_afterSend env m hs.fresh)
   exact ⟨rfl, rfl, hs.sock, hs.noreq, by show 0 < ci.sess.nextIn + 1; have := hs.posIn; omega, ⟨hf.out, hf.inb⟩,
-    hs.asciiS, hs.asciiT⟩
+    hs.latinS, hs.latinT⟩
 
 theorem peer_afterLogon {ci ca : Conn} (h : Peer ci ca) (env : Env) (m g f : Msg) :
     Peer (iAfterLogon ci env m g) (aAfterLogon ca env f) :=
@@ -193,7 +193,7 @@ and a real acceptor endpoint (`realAcceptor`: role ACCEPTOR, journal counters mi
 same frames and effects, the same initiator, and acceptors that are `AccEq` (role and stored inbound
 counter have converged); both pairs are established and synchronised. -/
 theorem logon_step (srI srA : Msg → Bool) (k : Nat) {env : Env} {ci : Conn} {m : Msg}
-    (hs : Start ci) (hm : LogonMsg m) (henv : asciiStr env.stamp = true) :
+    (hs : Start ci) (hm : LogonMsg m) (henv : isLatin1 env.stamp = true) :
     ∃ ci' caT' caL' eI eA,
       tStep srI srA env (k + 1) ⟨ci, mkAcceptor ci, []⟩ (.iSend m) =
         { pair := ⟨ci', caT', []⟩, effI := eI, effA := eA, out := .done } ∧
@@ -202,8 +202,8 @@ theorem logon_step (srI srA : Msg → Bool) (k : Nat) {env : Env} {ci : Conn} {m
   have hsend := appSend_logon hs hm henv
   have hT := accStart_mk (ci := ci)
   have hL := accStart_real (ci := ci)
-  have hrT := recv_logon_acc (sr := srA) hs hT hm henv hs.asciiT hs.asciiS
-  have hrL := recv_logon_acc (sr := srA) hs hL hm henv (by rw [hL.peer.ts]; exact hs.asciiT) (by rw [hL.peer.st]; exact hs.asciiS)
+  have hrT := recv_logon_acc (sr := srA) hs hT hm henv hs.latinT hs.latinS
+  have hrL := recv_logon_acc (sr := srA) hs hL hm henv (by rw [hL.peer.ts]; exact hs.latinT) (by rw [hL.peer.st]; exact hs.latinS)
   rw [real_frame] at hrL
   have hr2 := recv_logon_ini (sr := srI) (env := env) (m := m) hs hT (logonReply (sentFrame ci env m)) rfl
   refine ⟨_, _, _, _, _,
@@ -228,7 +228,7 @@ theorem accEq_closed {t l : Conn} (h : AccEq t l) :
   ⟨rfl, h.role, h.was, h.sess, rfl, rfl, rfl, h.hb, rfl, h.inb, h.inSeq⟩
 
 theorem final_step (srI srA : Msg → Bool) (k : Nat) {env : Env} {ci caT caL : Conn} {op : Op}
-    (hT : Sync ci caT) (hL : Sync ci caL) (hE : AccEq caT caL) (henv : asciiStr env.stamp = true) (hop : FinOp op) :
+    (hT : Sync ci caT) (hL : Sync ci caL) (hE : AccEq caT caL) (henv : isLatin1 env.stamp = true) (hop : FinOp op) :
     ∃ ci' caT' caL' eI eA,
       tStep srI srA env (k + 1) ⟨ci, caT, []⟩ op = { pair := ⟨ci', caT', []⟩, effI := eI, effA := eA, out := .done } ∧
       lStep srI srA env ci caL op = ⟨ci', caL', eI, eA, true⟩ ∧ AccEq caT' caL' := by
@@ -243,7 +243,7 @@ theorem final_step (srI srA : Msg → Bool) (k : Nat) {env : Env} {ci caT caL : 
   | aSend m =>
     obtain ⟨hm, h34, hty⟩ := hop
     have hfr := hE.frame env m
-    have hasc := sentFrame_ascii hT.a.asciiS hT.a.asciiT henv hm.ascii
+    have hasc := sentFrame_latin1 hT.a.latinS hT.a.latinT henv hm.latin1
     have hr := recv_logout_est (sr := srI) (env := env) hT.i (addressed_peer hT.peer.symm env m) hty
     have hsL := appSend_est hL.a hm henv (by rw [hty]; decide)
     rw [← hfr] at hsL
@@ -287,8 +287,8 @@ theorem agree_cons {T : TRes} {L : LRes} {eI eA : List Effect} (h : Agree T L) :
 
 /-- the middle and the end of a clean script, from an established synchronised pair -/
 theorem run_from_sync (srI srA : Msg → Bool) (k : Nat) (mids : List (Env × Op)) (fin : Option (Env × Op))
-    (hmids : ∀ x ∈ mids, asciiStr x.1.stamp = true ∧ MidOp x.2)
-    (hfin : ∀ x ∈ fin, asciiStr x.1.stamp = true ∧ FinOp x.2) :
+    (hmids : ∀ x ∈ mids, isLatin1 x.1.stamp = true ∧ MidOp x.2)
+    (hfin : ∀ x ∈ fin, isLatin1 x.1.stamp = true ∧ FinOp x.2) :
     ∀ {ci caT caL : Conn}, Sync ci caT → Sync ci caL → AccEq caT caL →
       Agree (tRun srI srA (k + 1) ⟨ci, caT, []⟩ (mids ++ fin.toList)) (lRun srI srA ci caL (mids ++ fin.toList)) := by
   induction mids with
@@ -312,7 +312,7 @@ theorem run_from_sync (srI srA : Msg → Bool) (k : Nat) (mids : List (Env × Op
     rw [tRun_cons _ ht, lRun_cons _ hl]
     exact agree_cons (ih (fun y hy => hmids y (by simp [hy])) hT' hL' hE')
 
-/-- **`tester_lockstep`** (proved part; see `tester_lockstep_full`).  For every clean session script –
+/-- **`tester_lockstep`**.  For every clean session script –
 a Logon by the initiator, then any number of application messages / Heartbeats / TestRequests either
 way, then optionally a Logout by either side – from a freshly connected initiator with any synchronised
 counters, replayed (a) through the wiring of `FIXTester` against its simulated acceptor and (b) between
@@ -321,45 +321,23 @@ step within ONE loop iteration (any fuel ≥ 1), the link is quiet after three l
 the same frames and hook calls on both sides, the same initiator connection (all fields incl. journal)
 and acceptors that agree in everything but the outbound half of the journal.
 
-Clean = ASCII text, no PossDupFlag, no SequenceReset, and – for messages sent on the acceptor's behalf –
-no MsgSeqNum of their own (`PlainMsg`, `MidOp`, `FinOp`, `LogonMsg`). -/
-theorem tester_lockstep_partial (srI srA : Msg → Bool) (k : Nat) {ci : Conn} (hs : Start ci)
-    {env0 : Env} {m0 : Msg} (henv0 : asciiStr env0.stamp = true) (hm0 : LogonMsg m0)
+Clean = single-byte (latin-1) text – what `send_msg` can put on the wire at all –, no PossDupFlag, no
+SequenceReset, and – for messages sent on the acceptor's behalf – no MsgSeqNum of their own (`PlainMsg`,
+`MidOp`, `FinOp`, `LogonMsg`).  (Before fix bcdee93 `reply` encoded UTF-8 and this held for ASCII text only.) -/
+theorem tester_lockstep (srI srA : Msg → Bool) (k : Nat) {ci : Conn} (hs : Start ci)
+    {env0 : Env} {m0 : Msg} (henv0 : isLatin1 env0.stamp = true) (hm0 : LogonMsg m0)
     (mids : List (Env × Op)) (fin : Option (Env × Op))
-    (hmids : ∀ x ∈ mids, asciiStr x.1.stamp = true ∧ MidOp x.2)
-    (hfin : ∀ x ∈ fin, asciiStr x.1.stamp = true ∧ FinOp x.2) :
+    (hmids : ∀ x ∈ mids, isLatin1 x.1.stamp = true ∧ MidOp x.2)
+    (hfin : ∀ x ∈ fin, isLatin1 x.1.stamp = true ∧ FinOp x.2) :
     Agree (tRun srI srA (k + 1) ⟨ci, mkAcceptor ci, []⟩ ((env0, .iSend m0) :: (mids ++ fin.toList)))
       (lRun srI srA ci (realAcceptor ci) ((env0, .iSend m0) :: (mids ++ fin.toList))) := by
   obtain ⟨ci', caT', caL', eI, eA, ht, hl, hT', hL', hE'⟩ := logon_step srI srA k hs hm0 henv0
   rw [tRun_cons _ ht, lRun_cons _ hl]
   exact agree_cons (run_from_sync srI srA k mids fin hmids hfin hT' hL' hE')
 
-/-! ### the full statement and non-vacuity -/
+/-! ### non-vacuity -/
 
-def latin1Msg (m : Msg) : Bool := isLatin1 m.mtype && m.tags.all fun p => isLatin1 p.2
-
-/-- `PlainMsg` with single-byte (latin-1) instead of ASCII text: what `send_msg` can put on the wire -/
-structure PlainMsgL (m : Msg) : Prop where
-  notReset : m.mtype ≠ mSequenceReset
-  noPossDup : (m.get? tPossDupFlag).getD "N" ≠ "Y"
-  latin1 : latin1Msg m = true
-
-def MidOpL : Op → Prop
-  | .iSend m => PlainMsgL m ∧ (isAppType m.mtype ∨ m.mtype = mHeartbeat)
-  | .aSend m => PlainMsgL m ∧ m.has tMsgSeqNum = false ∧ (isAppType m.mtype ∨ m.mtype = mHeartbeat)
-  | .iTestReq => True
-  | .aTestReq => True
-
-/-- Full statement: the same for every script whose text is encodable as single bytes.  FALSE on the
-current tree: `reply` encodes UTF-8 (known finding C20-reply-nonascii-utf8; `Findings/C20.lean`). -/
-def tester_lockstep_full : Prop :=
-  ∀ (srI srA : Msg → Bool) (k : Nat) (ci : Conn), Start ci →
-    ∀ (env0 : Env) (m0 : Msg), asciiStr env0.stamp = true → LogonMsg m0 →
-    ∀ (mids : List (Env × Op)), (∀ x ∈ mids, asciiStr x.1.stamp = true ∧ MidOpL x.2) →
-      Agree (tRun srI srA (k + 1) ⟨ci, mkAcceptor ci, []⟩ ((env0, .iSend m0) :: mids))
-        (lRun srI srA ci (realAcceptor ci) ((env0, .iSend m0) :: mids))
-
-/-- a concrete initiator, clock and script satisfying every hypothesis of `tester_lockstep_partial` -/
+/-- a concrete initiator, clock and script satisfying every hypothesis of `tester_lockstep` -/
 def ciEx : Conn := { state := 6, role := 1, sess := { sender := "INIT", target := "ACPT", nextIn := 5, nextOut := 7 }, sock := true }
 def envEx (n : Int) : Env := { now := n * 1000, stamp := "20240102-03:04:05.678" }
 def logonEx : Msg := Msg.mk' mLogon [(tEncryptMethod, "0"), (tHeartBtInt, "30")]
@@ -383,7 +361,7 @@ example :
       (lRun (fun _ => true) (fun _ => true) ciEx (realAcceptor ciEx)
         ((envEx 1, .iSend logonEx) :: ([(envEx 2, .iSend appEx), (envEx 3, .aSend appEx), (envEx 4, .iTestReq),
           (envEx 5, .aTestReq)] ++ (some (envEx 6, Op.iSend (Msg.mk' mLogout []))).toList))) := by
-  apply tester_lockstep_partial _ _ 0 start_ciEx (by decide) logonEx_ok
+  apply tester_lockstep _ _ 0 start_ciEx (by decide) logonEx_ok
   · intro x hx
     simp only [List.mem_cons, List.mem_nil_iff, or_false] at hx
     rcases hx with rfl | rfl | rfl | rfl
